@@ -224,6 +224,107 @@ func (a *epAnchors) slotStores(fn *ssa.Function) []*ssa.Store {
 	return out
 }
 
+// takeOutHelper: h is a private method of the end point that takes a handler
+// out of the table for its caller — "func (e *endPoint) takeHandler(id int)
+// *Handler": every return hands back nil or the content of the slot whose
+// index is the helper's parameter, read with the handlers mutex held
+// exclusively by the helper itself, behind the bounds of the table, and the
+// slot is cleared before that mutex is released.  The index of the id
+// parameter is returned.
+func (a *epAnchors) takeOutHelper(c *core.Ctx, lc *core.LockCache, h *ssa.Function) (int, bool) {
+	if h == nil || len(h.Blocks) == 0 || !isPrivateHelper(c, h) || h.Signature.Results().Len() != 1 {
+		return 0, false
+	}
+	pi := -1
+	some := false
+	for _, ret := range core.Returns(h) {
+		rv := core.Canon(core.RetVal(ret, 0))
+		if core.IsNilConst(rv) {
+			continue
+		}
+		idx, ok := a.slotLoadIndex(rv)
+		if !ok {
+			return 0, false
+		}
+		p, isP := core.Canon(idx).(*ssa.Parameter)
+		if !isP || p.Parent() != h {
+			return 0, false
+		}
+		cur := -1
+		for i, q := range h.Params {
+			if q == p {
+				cur = i
+			}
+		}
+		if cur < 0 || (pi >= 0 && pi != cur) {
+			return 0, false
+		}
+		pi = cur
+		ld := rv.(ssa.Instruction)
+		if held, _ := lc.Get(h).HeldAt(ld, a.class, true); !held {
+			return 0, false
+		}
+		isID := func(v ssa.Value) bool { return core.Canon(v) == ssa.Value(p) }
+		isLen := func(v ssa.Value) bool {
+			call, ok := core.Canon(v).(*ssa.Call)
+			if !ok {
+				return false
+			}
+			bi, ok := call.Call.Value.(*ssa.Builtin)
+			return ok && bi.Name() == "len" && isFieldOf(call.Call.Args[0], a.handlers)
+		}
+		ltLen := func(cm core.Cmp) (bool, bool) {
+			if isID(cm.X) && isLen(cm.Y) {
+				switch cm.Op {
+				case token.LSS:
+					return true, false
+				case token.GEQ:
+					return false, true
+				}
+			}
+			if isLen(cm.X) && isID(cm.Y) {
+				switch cm.Op {
+				case token.GTR:
+					return true, false
+				case token.LEQ:
+					return false, true
+				}
+			}
+			return false, false
+		}
+		if !core.Guarded(h, ld, core.LowerBound0(isID)) || !core.Guarded(h, ld, ltLen) {
+			return 0, false
+		}
+		// cleared between the read and the return, with no release in between
+		clears := func(x ssa.Instruction) bool {
+			st, ok := x.(*ssa.Store)
+			if !ok || !core.IsNilConst(st.Val) {
+				return false
+			}
+			ia, ok := st.Addr.(*ssa.IndexAddr)
+			return ok && isFieldOf(ia.X, a.handlers) && core.SameValue(ia.Index, idx)
+		}
+		isRv := func(v ssa.Value) bool { return core.Canon(v) == rv }
+		if core.ReachFrom(core.After(ld), clears, core.CutEstablishing(core.Eq(isRv, core.IsNilConst))).Has(ret) {
+			return 0, false // a way to the return, with a handler in hand, that does not clear the slot
+		}
+		for _, b := range h.Blocks {
+			for _, in := range b.Instrs {
+				if clears(in) {
+					if held, _ := lc.Get(h).HeldAt(in, a.class, true); !held {
+						return 0, false
+					}
+					if ldi, ok := rv.(ssa.Instruction); ok && unlockBetween(h, ldi, in, a.class) {
+						return 0, false
+					}
+				}
+			}
+		}
+		some = true
+	}
+	return pi, some && pi >= 0
+}
+
 // ---------------------------------------------------------------- C17 rules
 
 func ruleCloseOwner(c *core.Ctx, a *epAnchors, rule string) {
@@ -321,6 +422,17 @@ func ruleCloseWithCallers(c *core.Ctx, a *epAnchors, lc *core.LockCache, rule st
 			recv := call.Common().Args[0]
 			idx, ok := a.slotLoadIndex(recv)
 			if !ok {
+				// handed over by a helper that took it out of the table under the mutex
+				if cr, _ := core.CallResult(core.Canon(recv)); cr != nil {
+					if _, isTake := a.takeOutHelper(c, lc, cr.Call.StaticCallee()); isTake {
+						r0 := core.Canon(recv)
+						isRecv := func(v ssa.Value) bool { return core.Canon(v) == r0 }
+						if core.Guarded(fn, in, core.Ne(isRecv, core.IsNilConst)) {
+							c.Pass(rule, key, call.Pos(), "the handler was taken out of the table by "+core.FuncKey(cr.Call.StaticCallee())+" (non-nil slot read and cleared in one critical section) before it is closed")
+							continue
+						}
+					}
+				}
 				c.Fail(rule, key, call.Pos(), "Handler.closeWith is called on a handler that is not read from an endPoint.handlers slot: it can run twice for one handler")
 				continue
 			}
@@ -509,6 +621,18 @@ func ruleSlotFill(c *core.Ctx, a *epAnchors, lc *core.LockCache, rule string) {
 		}
 		key := fmt.Sprintf("RemoveHandler-success#%d", i)
 		ok := core.Guarded(fn, ret, core.LowerBound0(isID)) && core.Guarded(fn, ret, ltLen) && core.Guarded(fn, ret, core.Ne(isSlot, core.IsNilConst))
+		if !ok {
+			// … or for a non-nil handler that a take-out helper returned for this id
+			isTaken := func(v ssa.Value) bool {
+				cr, _ := core.CallResult(core.Canon(v))
+				if cr == nil {
+					return false
+				}
+				pi, isTake := a.takeOutHelper(c, lc, cr.Call.StaticCallee())
+				return isTake && pi < len(cr.Call.Args) && isID(cr.Call.Args[pi])
+			}
+			ok = core.Guarded(fn, ret, core.Ne(isTaken, core.IsNilConst))
+		}
 		c.Check(ok, rule, key, ret.Pos(), "nil error only for 0 <= id < len(handlers) with a non-nil slot",
 			"RemoveHandler can report success for an out-of-range id or an empty slot (removing an unknown or already-removed handler must be an error)")
 	}
@@ -868,6 +992,69 @@ func substValue(subst map[*ssa.Parameter]ssa.Value, v ssa.Value) ssa.Value {
 	return w
 }
 
+// sentHeaderField: v reads field fld of the header of the message this call
+// sends — msg.Header.<fld> directly, or through a copy of that header handed
+// to the callback's factory (replyFilter(msg.Header) comparing with
+// call.Service): the captured copy is followed back to the argument.
+func sentHeaderField(subst map[*ssa.Parameter]ssa.Value, sent ssa.Value, fld *types.Var, v ssa.Value) bool {
+	if sent == nil || fld == nil {
+		return false
+	}
+	p := core.AccessPath(core.StripConv(v))
+	if len(p.Fields) == 0 || p.Fields[len(p.Fields)-1] != fld {
+		return false
+	}
+	root := p.Root
+	for depth := 0; depth < 4; depth++ {
+		switch x := root.(type) {
+		case *ssa.Alloc, *ssa.FreeVar:
+			d := core.SingleDef(x)
+			if d == nil {
+				return false
+			}
+			q := core.AccessPath(d)
+			root = q.Root
+			continue
+		case *ssa.Parameter:
+			a, ok := subst[x]
+			if !ok {
+				return core.RootOf(x) == sent
+			}
+			q := core.AccessPath(a)
+			root = q.Root
+			if r2 := core.RootOf(a); r2 == sent {
+				return true
+			}
+			continue
+		}
+		break
+	}
+	return root == sent || core.RootOf(root) == sent
+}
+
+// builtWithAPIParams: the message sent was built by one call of Call's own
+// (c.newMessage(serviceID, objectID, actionID, payload)) whose k-th 32-bit
+// argument is the k-th 32-bit parameter of the API method; that the builder
+// puts them in the right header fields is rule C04.address.
+func builtWithAPIParams(api *ssa.Function, sent ssa.Value, k int) bool {
+	cr, _ := core.CallResult(sent)
+	if cr == nil || cr.Parent() != api {
+		return false
+	}
+	n := 0
+	for _, a := range cr.Call.Args {
+		b, ok := a.Type().Underlying().(*types.Basic)
+		if !ok || b.Kind() != types.Uint32 {
+			continue
+		}
+		if n == k {
+			return apiParam(api, k, nil)(a)
+		}
+		n++
+	}
+	return false
+}
+
 // apiParam matches the k-th uint32 parameter of the API method api (service,
 // object, action in that order for client.Call and client.Subscribe), as seen
 // from a callback: directly captured, or captured by a factory whose
@@ -1065,14 +1252,15 @@ func ruleCallbacks(c *core.Ctx, a *epAnchors, lc *core.LockCache, rule string) {
 		}
 		return nil
 	}
-	blocks := func(fn *ssa.Function) (string, token.Pos) {
+	blocks := func(fn *ssa.Function, subst map[*ssa.Parameter]ssa.Value) (string, token.Pos) {
 		for _, f := range core.AnonFuncs(fn) {
 			for _, b := range f.Blocks {
 				for _, in := range b.Instrs {
 					switch x := in.(type) {
 					case *ssa.Send:
 						capOK := false
-						if mk, ok := core.Canon(x.Chan).(*ssa.MakeChan); ok {
+						// the channel captured directly, or handed to the callback's factory
+						if mk, ok := core.Canon(substValue(subst, x.Chan)).(*ssa.MakeChan); ok {
 							if k, ok := core.ConstInt(mk.Size); ok && k >= 1 {
 								capOK = true
 							}
@@ -1151,7 +1339,7 @@ func ruleCallbacks(c *core.Ctx, a *epAnchors, lc *core.LockCache, rule string) {
 				c.Pass(rule, key, s.call.Pos(), "the closer runs with handlersMutex held only when the handler's own filter answers keep=false, which this filter never does; RemoveHandler and shutdown close it after releasing the mutex")
 				continue
 			}
-			f, ok := funcValue(cb.v)
+			f, fsubst, ok := funcValueCtx(cb.v)
 			if !ok {
 				if _, isParam := core.Canon(cb.v).(*ssa.Parameter); isParam {
 					c.PassTrivial(rule, key, s.call.Pos(), "callback supplied by the caller of "+core.FuncKey(s.fn)+" (checked at its call sites when inside the repository; user callbacks are bound by the documented contract)")
@@ -1168,7 +1356,7 @@ func ruleCallbacks(c *core.Ctx, a *epAnchors, lc *core.LockCache, rule string) {
 				c.Fail(rule, key, f.Pos(), "the "+cb.kind+" runs with handlersMutex held (RemoveHandler / dispatch) and can re-acquire it: "+strings.Join(path, " -> ")+" (self-deadlock: the connection's dispatch and the calling goroutine are wedged)")
 				continue
 			}
-			if why, pos := blocks(f); why != "" {
+			if why, pos := blocks(f, fsubst); why != "" {
 				c.Fail(rule, key, pos, "the "+cb.kind+" runs with handlersMutex held and can block: "+why)
 				continue
 			}
